@@ -21,6 +21,7 @@ import (
 	"verif/harness/core"
 	"verif/harness/env"
 	"verif/harness/keys"
+	"verif/harness/sim"
 	"verif/harness/spsim"
 	"verif/harness/verify"
 )
@@ -196,8 +197,30 @@ func c18Harvest(r *core.Run, idx int, rng *rand.Rand) {
 	mustRegister(e.W, d, "a")
 	id := "id" + legalXMLString(rng, 6)
 	var call *env.Call
-	kind := idx % 5
+	kind := idx % 7
+	wantRelay, checkRelay := "", false
 	switch kind {
+	case 6: // a completed callback whose RelayState is full of characters that mean something in a query string or a form
+		sc := randScenario(rng, fmt.Sprintf("MK%dx", idx), false)
+		sc.Host = ""
+		sc.S.AuthRequestID = id
+		sc.S.RelayState = []string{"a&b=c", "x&SigAlg=http%3A%2F%2Fwww.w3.org%2F2000%2F09%2Fxmldsig%23rsa-sha1&Signature=AAAA", "1+1=2", "a+b/c==", "50%", "%41%zz", "q?x=1#frag;y", "sp ace\ttab", "ü&é+", "&", "+", "=", "&&==", "a=b&SAMLResponse=evil"}[rng.Intn(14)] + legalXMLString(rng, 2)
+		sc.install(e.W)
+		wantRelay, checkRelay = sc.S.RelayState, true
+		call = e.Do(env.Req{Path: env.PathLogin, Query: "id=" + url.QueryEscape(sc.S.ID)})
+	case 5: // the signing key cannot be read at the callback (error, timeout, no record): a failure message or a plain error
+		sc := randScenario(rng, fmt.Sprintf("MK%dx", idx), false)
+		sc.Host = ""
+		sc.S.AuthRequestID = id
+		sc.install(e.W)
+		fk := []string{sim.FaultError, sim.FaultTimeout, sim.FaultNilRecord, sim.FaultKeyNoCert, sim.FaultCertNoKey, sim.FaultEmptyCert}[rng.Intn(6)]
+		e.W.Plan = func(tag, op string, occ int) string {
+			if op == "GetResponseSigningKey" {
+				return fk
+			}
+			return ""
+		}
+		call = e.Do(env.Req{Path: env.PathLogin, Query: "id=" + url.QueryEscape(sc.S.ID)})
 	case 4: // the callback cannot sign (certificate and key do not belong together): what is sent must be the failure message
 		sc := randScenario(rng, fmt.Sprintf("MK%dx", idx), false)
 		sc.Host = ""
@@ -233,7 +256,7 @@ func c18Harvest(r *core.Run, idx int, rng *rand.Rand) {
 		q.Attrs = nil
 		call = e.Do(env.Req{Method: "POST", Path: env.PathAttr, Body: q.XML(rng), CT: "text/xml"})
 	}
-	class := []string{"sso_error", "logout", "attribute_query", "callback_unknown_id", "callback_signing_failure"}[kind]
+	class := []string{"sso_error", "logout", "attribute_query", "callback_unknown_id", "callback_signing_failure", "callback_key_fault", "callback_relay_state"}[kind]
 	r.Eval(class + core.Hex(id))
 	viol := func(clause, reason string) {
 		r.Violate(core.Violation{Clause: clause, Class: class, Reason: reason, Workload: wl, Index: idx, Case: map[string]any{"id": id}, Observed: call.Describe()})
@@ -241,6 +264,29 @@ func c18Harvest(r *core.Run, idx int, rng *rand.Rand) {
 	if call.Panic != "" {
 		viol("panic", call.Panic)
 		return
+	}
+	if checkRelay && call.D.Kind == "redirect" {
+		// the emitted query holds each of the protocol's parameters exactly once
+		n := map[string]int{}
+		for _, kv := range strings.Split(call.D.RawQuery, "&") {
+			k, _, _ := strings.Cut(kv, "=")
+			n[k]++
+		}
+		for _, k := range []string{"SAMLResponse", "RelayState", "SigAlg", "Signature"} {
+			if n[k] > 1 {
+				viol("structure_changed_by_data", fmt.Sprintf("the redirect reply carries the parameter %s %d times (RelayState put in: %q)", k, n[k], wantRelay))
+			}
+		}
+	}
+	if checkRelay && (call.D.Kind == "redirect" || call.D.Kind == "form") {
+		got := call.D.RelayState
+		if call.D.Kind == "form" {
+			got, wantRelay = normNL(got), normNL(wantRelay)
+		}
+		if got != wantRelay {
+			viol("value_changed", fmt.Sprintf("RelayState put in %q, RelayState that arrives (%s delivery) %q", wantRelay, call.D.Kind, got))
+		}
+		r.Count("harvested_relay_states", 1)
 	}
 	if call.D.XML == nil {
 		r.Count("harvest_no_message", 1)
@@ -277,7 +323,7 @@ func c18Harvest(r *core.Run, idx int, rng *rand.Rand) {
 		}
 		return
 	}
-	if kind == 4 {
+	if kind == 4 || kind == 5 {
 		// the message handed to the sender was a failure response: that, and nothing else, is what must arrive
 		if call.D.Success() || pm.HasNameID || pm.AttrValueCount > 0 {
 			viol("emitted_message_is_not_the_one_built", fmt.Sprintf("signing failed, yet the reply decodes to status %q with subject %q and %d attribute values", pm.StatusCode, pm.NameID, pm.AttrValueCount))
